@@ -333,7 +333,7 @@ type tracked struct {
 
 func plainStream(k *FaultCase) bool {
 	for _, rec := range k.Records {
-		if !plainURL(rec.URL) {
+		if !plainURL(rec.URL) || !validKeys(rec) {
 			return false
 		}
 	}
@@ -439,14 +439,17 @@ func accounts(k *FaultCase, f Final, want []tracked, where, ctx string, disk boo
 		if len(p) != 2 {
 			continue
 		}
-		key := [2]string{p[0], p[1]}
+		key := [2]string{canon(p[0]), canon(p[1])}
 		if t, ok := wantI[key]; !ok || rec.TS > t {
 			wantI[key] = rec.TS
 		}
 	}
 	got := map[[2]string]int64{}
 	for _, i := range f.Interceptors {
-		got[[2]string{i.Type, i.Version}] = i.TS
+		key := [2]string{canon(i.Type), canon(i.Version)}
+		if t, ok := got[key]; !ok || i.TS > t {
+			got[key] = i.TS
+		}
 	}
 	for key, t := range wantI {
 		g, ok := got[key]
